@@ -318,6 +318,33 @@ Proof.
   apply in_flat_map in Hx as (y & Hy & [<-|[]]). exact Hy.
 Qed.
 
+(* ---- heights ------------------------------------------------------------------------------------- *)
+Lemma in_list_max {A} (h : A -> nat) x l : In x l -> (h x <= list_max (map h l))%nat.
+Proof.
+  induction l as [|y l IH]; cbn [In map list_max fold_right]; [tauto|]. intros [->|H]; [lia|].
+  specialize (IH H). unfold list_max in IH. lia.
+Qed.
+
+Lemma vheight_pos v : (1 <= vheight v)%nat.
+Proof. destruct v; cbn [vheight]; lia. Qed.
+Lemma jheight_pos n : (1 <= jheight n)%nat.
+Proof. destruct n; cbn [jheight]; try lia. apply vheight_pos. Qed.
+
+Lemma jheight_seq id ms x : In x ms -> (jheight x < jheight (JSeqN id ms))%nat.
+Proof. intros H. cbn [jheight]. pose proof (in_list_max jheight x ms H). lia. Qed.
+
+Lemma jheight_rep id f reps rep x : In rep reps -> In x rep -> (jheight x < jheight (JRep id f reps))%nat.
+Proof.
+  intros Hr Hx. cbn [jheight]. pose proof (in_list_max jheight x rep Hx).
+  pose proof (in_list_max (fun rep => list_max (map jheight rep)) rep reps Hr). cbv beta in *. lia.
+Qed.
+
+Lemma jheight_factor id v reps : (vheight v < jheight (JRep id (Some v) reps))%nat.
+Proof. cbn [jheight]. lia. Qed.
+
+Lemma vheight_attr i b ats a : In a ats -> (vheight a < vheight (JV i b ats))%nat.
+Proof. intros H. cbn [vheight]. pose proof (in_list_max vheight a ats H). lia. Qed.
+
 Section DS.
 Context (attrs : list attr) (ia : N -> bool) (vals : list value) (labels : list (list char)).
 Context (K : nat).                                   (* the depth to which the rendering unfolds attributes *)
@@ -437,33 +464,6 @@ Qed.
 
 End Visit.
 End Cands.
-
-(* ---- heights ------------------------------------------------------------------------------------- *)
-Lemma in_list_max {A} (h : A -> nat) x l : In x l -> (h x <= list_max (map h l))%nat.
-Proof.
-  induction l as [|y l IH]; cbn [In map list_max fold_right]; [tauto|]. intros [->|H]; [lia|].
-  specialize (IH H). unfold list_max in IH. lia.
-Qed.
-
-Lemma vheight_pos v : (1 <= vheight v)%nat.
-Proof. destruct v; cbn [vheight]; lia. Qed.
-Lemma jheight_pos n : (1 <= jheight n)%nat.
-Proof. destruct n; cbn [jheight]; try lia. apply vheight_pos. Qed.
-
-Lemma jheight_seq id ms x : In x ms -> (jheight x < jheight (JSeqN id ms))%nat.
-Proof. intros H. cbn [jheight]. pose proof (in_list_max jheight x ms H). lia. Qed.
-
-Lemma jheight_rep id f reps rep x : In rep reps -> In x rep -> (jheight x < jheight (JRep id f reps))%nat.
-Proof.
-  intros Hr Hx. cbn [jheight]. pose proof (in_list_max jheight x rep Hx).
-  pose proof (in_list_max (fun rep => list_max (map jheight rep)) rep reps Hr). cbv beta in *. lia.
-Qed.
-
-Lemma jheight_factor id v reps : (vheight v < jheight (JRep id (Some v) reps))%nat.
-Proof. cbn [jheight]. lia. Qed.
-
-Lemma vheight_attr i b ats a : In a ats -> (vheight a < vheight (JV i b ats))%nat.
-Proof. intros H. cbn [vheight]. pose proof (in_list_max vheight a ats H). lia. Qed.
 
 (* ---- saturation ------------------------------------------------------------------------------------ *)
 Lemma no_chain_0 i : no_chain attrs 0 i = true -> Query.attrs_of attrs i = [].
